@@ -8,6 +8,16 @@ class InvalidParameterError(ValueError, TypeError):
     pass
 
 
+def validate_data(estimator, X, **check_params):
+    # scikit-learn >= 1.6 replaced the method BaseEstimator._validate_data by the function
+    # sklearn.utils.validation.validate_data. Use whichever is available.
+    try:
+        from sklearn.utils.validation import validate_data as sk_validate_data
+    except ImportError:
+        return estimator._validate_data(X, **check_params)
+    return sk_validate_data(estimator, X, **check_params)
+
+
 def check_constraint(local_constraint):
     if isinstance(local_constraint, str) and local_constraint == "array-like":
         return skparamvalid._ArrayLikes()
